@@ -139,6 +139,16 @@ def run(ctx):
                 (cQ(Fraction(lam1)), cQ(Fraction(dE1)), cZ(r11[0]), cZ(r11[1]), cQ(Fraction(lam2)), cQ(Fraction(dE1)), cZ(r21[0]), cZ(r21[1]), cQ(Fraction(lam1)), cQ(Fraction(dE2)), cZ(r12[0]), cZ(r12[1]),
                  cZ(r11[0]), cZ(r21[0]), cZ(r11[0]), cZ(r12[0]), cZ(r11[1]), cZ(r21[1]), cZ(r12[1]), cZ(r11[1])),
                 {'call': 'compute_cost' if name == 'thc' else 'cost_sparse', 'n': n, 'lam': [lam1, lam2], 'dE': [dE1, dE2], 'returned': [r11, r21, r12]}, key=(name, lam1, dE1))
+    # loose precision targets: one to a handful of phase-estimation iterations (pi lam / (2 dE) around and below 1)
+    for i in range(N(20, 120)):
+        n = rng.choice([10, 26, 54]); chi = rng.choice([10, 12]); beta = rng.choice([16, 20]); M = rng.choice([50, 100]); stps = 20000; rng_d = rng.choice([1000, 4096])
+        dE = rng.choice([1.0, 2.0, 4.0]); lam = rng.choice([0.05, 0.3, 0.6, 0.7, 1.2, 1.3, 2.5, 5.0]) * dE * rng.choice([1.0, 0.99, 1.01])
+        for name, fn in (('thc', lambda lam_, dE_: compute_cost(n, lam_, dE_, chi, beta, M, stps)), ('sparse', lambda lam_, dE_: cost_sparse(n, lam_, rng_d, dE_, chi, stps))):
+            try: r = fn(lam, dE)
+            except Exception as e:
+                ctx.stat('cost_small_ratio', 'raised_%s' % type(e).__name__); continue
+            add('cost_small_ratio', '(cost_ok %s %s %s %s)' % (cQ(Fraction(lam)), cQ(Fraction(dE)), cZ(r[0]), cZ(r[1])),
+                {'call': 'compute_cost' if name == 'thc' else 'cost_sparse', 'n': n, 'lam': lam, 'dE': dE, 'returned': list(r)}, key=(name, lam, dE, n))
     res = coq_eval_bools(ctx, 'c19', IMPORTS, items, chunk=40, timeout=1500)
     judge(ctx, res, meta, 'C19')
 
